@@ -54,7 +54,7 @@ def canon_decl(r):
 class Module(object):
     """one analysed module: fresh scope + the list of its reads"""
 
-    def __init__(self, text, filename, project=None):
+    def __init__(self, text, filename, project=None, attrs=True):
         reset_global_memo()
         self.project = project or Project([nc.PROJECT_DIR])
         self.source = Source(text, filename)
@@ -62,8 +62,9 @@ class Module(object):
         import ast as _ast
         self.reads = [n for n in get_name_usages(self.source.tree) if hasattr(n, 'flow')]
         # attribute reads are positions users query as well (obj.attr|)
-        self.reads += sorted((n for n in _ast.walk(self.source.tree) if isinstance(n, _ast.Attribute) and isinstance(n.ctx, _ast.Load)),
-                             key=lambda n: (n.end_lineno, n.end_col_offset))
+        if attrs:
+            self.reads += sorted((n for n in _ast.walk(self.source.tree) if isinstance(n, _ast.Attribute) and isinstance(n.ctx, _ast.Load)),
+                                 key=lambda n: (n.end_lineno, n.end_col_offset))
 
     def query(self, i):
         n = self.reads[i]
@@ -99,7 +100,9 @@ class Module(object):
         return json.dumps([view, len(visible), hash_list(visible), decl, ev, attrs])
 
     def state(self):
-        return e2.fingerprint([self.scope, supp.scope.builtin_scope])
+        bs = supp.scope.builtin_scope
+        memo = e2.runtime_memo_summary(bs.__dict__.get('names'))
+        return e2.fingerprint([self.scope, memo], opaque=[bs])
 
 
 def hash_list(xs):
@@ -186,11 +189,12 @@ def orders(n, reads):
 def check_file(path, part):
     out = []
     text = open(path, encoding='utf-8').read()
-    m0 = Module(text, path)
+    attrs = len(text) < 3000
+    m0 = Module(text, path, attrs=attrs)
     n = len(m0.reads)
     answers = {}
     for name, order in orders(n, m0.reads):
-        m = Module(text, path)
+        m = Module(text, path, attrs=attrs)
         ans = [None] * n
         for i in order:
             ans[i] = m.query(i)
@@ -209,7 +213,7 @@ def check_file(path, part):
                 break
     step = 25
     for i in range(0, n, step):
-        fresh = Module(text, path).query(i)
+        fresh = Module(text, path, attrs=attrs).query(i)
         part.count('transitions')
         if fresh != base[i]:
             node = m0.reads[i]
@@ -313,7 +317,7 @@ def project_search(part, which='loop'):
                                 REQS[ev], obs[:300], hist, ref[ev][:300]),
                             {'kind': 'project', 'which': which}))
 
-        s = e2.Search(build, list(range(len(REQS))), lambda P: e2.fingerprint([P, supp.scope.builtin_scope]), max_states=600).run(on_transition)
+        s = e2.Search(build, list(range(len(REQS))), lambda P: e2.fingerprint([P, e2.runtime_memo_summary(supp.scope.builtin_scope.__dict__.get('names'))], opaque=[supp.scope.builtin_scope]), max_states=600).run(on_transition)
         part.count('states', s.states)
         part.count('transitions', s.transitions)
         part.count('project_states', s.states)
@@ -397,7 +401,11 @@ def space(tier):
             k4.append(p)
     if tier == 'quick':
         k4 = k4[::30]
-    return out + k4
+    from . import names_run
+    l3 = list(names_run.loops3_family())
+    if tier == 'quick':
+        l3 = l3[::40]
+    return out + k4 + l3
 
 
 def joined(text):
